@@ -193,6 +193,11 @@ func init() {
 			if err != nil {
 				return []Violation{{Property: "C13", Rule: "harness", Msg: err.Error()}}
 			}
+			if _, heldUp := stalledShape(v); heldUp {
+				// a (sub-)workflow's fallback detector gave up because a goroutine was held up: the item or
+				// the loop then fails for a reason that is C09's finding, not the loop's
+				return nil
+			}
 			vs := OracleLoop("C13", v)
 			for i := range vs {
 				if vs[i].Shape == "" {
